@@ -66,7 +66,9 @@ def run_case(tid, cons, styles, bounds, max_cards, style, rng):
             kw = {}
             if pool or tpool != "none":
                 kw = dict(tally_pool=(None if tpool == "none" else tpool), pool=pool)
-            out, n_ph = CVR.make_phantoms(audit=audit, contests=contests, cvr_list=cvrs, prefix="phantom-", **kw)
+            # the dictionary's keys need not be the contest identifiers
+            cdict = contests if rng.random() < 0.6 else {f"key:{c}": con for c, con in contests.items()}
+            out, n_ph = CVR.make_phantoms(audit=audit, contests=cdict, cvr_list=cvrs, prefix="phantom-", **kw)
         n = len(cvrs)
         same = all(out[k] is cvrs[k] for k in range(min(n, len(out)))) and \
             [(c.id, c.votes, c.phantom, c.pool, c.tally_pool) for c in cvrs] == snapshot
